@@ -11,6 +11,8 @@ NOTE = ("Trusts clang 14's parser, Sema and CFG builder, the condition normalisa
         "Value clauses listed as not decided in the evidence are outside the claim.")
 
 CLAIMED = {
+ "C07": ("E-PATH", "Static path analysis of the prekill-hook protocol: at most one invocation per candidate and only inside the timeout window; an unfinished invocation is always stored and DEFER returned with no kill; the invocation object is destroyed (local scope exit / state reset) before any kill continuation; a second invocation can never be stored; the deferred victim is re-resolved by path and inode id or the cycle fails without a kill; Engine::firePrekillHook walks the priority list from its back, fires the first matching hook and returns; hooks are inserted by reverse iteration, drop-in hooks only after all rulesets were accepted. Holds for all hook lists, completion times and histories as a property of the CFG; hook timing and hook plugin behaviour are not decided.", "4/C07"),
+ "C17": ("E-PATH", "Static order / dominance / value-shape rules on the kill accounting: uuid+initiation xattrs before every kill sink, completion xattr with the returned nrKilled on every path to the final return, +1 / +count on both attribute copies, nrKilled incremented only on the kill(2)==0 edge, counter and kmsg record dominated by 'a process was signalled' (counter also by !dry), kmsg write independent of log silencing, record fields, uuid provenance, the PluginRet table of BaseKillPlugin::run, and an exception-escape analysis showing that arbitrary pre-existing xattr text cannot throw out of the helpers. Arithmetic on xattr values is not decided.", "4/C17"),
  "C03": ("E-PATH", "Expression-tree rule on the single comparator used by all kill plugins (preference first, descending; enum values PREFER>NORMAL>AVOID), sibling agreement of the five rankForKilling overrides, exhaustive path enumeration of readKillPreferenceAt (prefer probed before avoid), guard dominance of the DFS (recursive_, memory.oom.group, populated), fallback reachability after a failed kill, pop/reverse/push order. Decides the structure for all trees and xattr/outcome assignments; std::sort's result on concrete metric values is not decided.", "4/C03"),
  "C04": ("E-EFFECT", "May-reach-sink analysis over the whole-library call graph from the dry-aware run() methods: every effect sink (kill, pidfd/mrelease syscalls, xattr and cgroup control-file writes, sd_bus_call_method, kill/restart counters) is dominated by dry==false or lies in a function reachable only through such call sites (greatest fixpoint); plus a frozen table of the places where the dry flag may be read, so it cannot influence selection or the returned PluginRet. Holds for every world and configuration; external hook effects are not decided.", "4/C04"),
  "C01": ("E-EFFECT", "Whole-library who-may-call tables for every signalling / reaping / cgroup.kill / cgroup.freeze / xattr-write sink, argument provenance (by expansion of single-definition locals) from kill(2)'s pid back to openat(victim dir fd, cgroup.procs) and from every KillCandidate back to rankForKilling(configured cgroups | children under the recursive guard | re-resolved by inode), the pid>0 guard, and never-after-success on the kill loops. These are properties of the resolved program, so they hold for all trees, configurations and histories; behaviour of the kernel and path-based xattr TOCTOU are not decided.", "4/C01"),
